@@ -87,3 +87,6 @@ def streams(ctx):
     def classify(op, res):
         return op.split()[0]
     return [Stream("roots", ops, oracle=True, nontrivial=nontrivial, classify=classify, timeout=120)] + params_streams.c12_streams(ctx)
+
+
+search = params_streams.params_search
